@@ -137,7 +137,16 @@ func cmdCheck(args []string) int {
 	backends := map[string]int{}
 	os.MkdirAll(filepath.Join(outDir(), "replays"), 0o755)
 	staleFn := map[string]bool{}
+	droppedReq := map[string]bool{}
 	for _, r := range results {
+		if len(r.StaleRequires) > 0 {
+			for _, o := range r.Obls {
+				droppedReq[o.Fn] = true
+			}
+			for _, c := range r.StaleRequires {
+				fmt.Printf("STALE-CONTRACT %s: requires clause no longer binds to the code and was not assumed: %s\n", r.Key, c)
+			}
+		}
 		if len(r.SpecErrors) > 0 {
 			staleFn[r.Key] = true
 			for _, e := range r.SpecErrors {
@@ -178,7 +187,9 @@ func cmdCheck(args []string) int {
 	const maxReplays = 6
 	for _, g := range groups {
 		solverSecs += g.Seconds
-		isStale := false
+		// (only for obligations the unchanged tree does not have under this name: one that was
+		// discharged at baseline and fails now is reported, stale requires or not)
+		isStale := droppedReq[g.Fn] && baseline != nil && !baseline[g.Name]
 		for _, o := range g.Instances {
 			if strings.Contains(o.Goal.S, "specerr!") {
 				isStale = true
